@@ -121,7 +121,7 @@ fn main() {
                 }
             }
         }
-        let db = FixtureDatabase::new();
+        let db = std::sync::Arc::new(FixtureDatabase::new());
         let mut observed = vec![];
         for step in sc["steps"].as_array().cloned().unwrap_or_default() {
             let op = step["op"].as_str().unwrap_or("");
@@ -136,13 +136,28 @@ fn main() {
                     Value::Null
                 }
                 "scan" => { db.scan_workspace(&file); Value::Null }
+                // scan in a detached thread, give up after `timeout_ms` (a scan that never returns is the defect)
+                "scan_timeout" => {
+                    let (tx, rx) = std::sync::mpsc::channel();
+                    let db2 = db.clone();
+                    let f2 = file.clone();
+                    std::thread::spawn(move || { db2.scan_workspace(&f2); let _ = tx.send(()); });
+                    match rx.recv_timeout(std::time::Duration::from_millis(step["timeout_ms"].as_u64().unwrap_or(5000))) {
+                        Ok(()) => json!("RETURNED"),
+                        Err(_) => json!("TIMEOUT"),
+                    }
+                }
+                "mkfifo" => {
+                    let ok = std::process::Command::new("mkfifo").arg(&file).status().map(|s| s.success()).unwrap_or(false);
+                    json!(ok)
+                }
                 "close" => { db.cleanup_file_cache(&file); Value::Null }
                 "write" => { std::fs::write(&file, step["text"].as_str().unwrap()).unwrap(); Value::Null }
                 "query" => run_query(&db, &root, &step["q"]),
                 _ => json!("unknown-op"),
             }));
             let v = match r { Ok(v) => v, Err(_) => json!("PANIC") };
-            if op == "query" || v == json!("PANIC") {
+            if op == "query" || step.get("label").is_some() || v == json!("PANIC") {
                 observed.push(json!({"label": step.get("label").cloned().unwrap_or(Value::Null), "op": op, "value": v}));
             }
         }
@@ -159,4 +174,6 @@ fn main() {
         out.push(json!({"scenario": path, "id": sc["id"], "observed": observed}));
     }
     println!("{}", serde_json::to_string(&Value::Array(out)).unwrap());
+    // a scan blocked in a detached thread (scan_timeout) must not keep the process alive
+    std::process::exit(0);
 }
